@@ -20,6 +20,7 @@ type lockCtx struct {
 	coupled map[string]bool // constants already coupled
 	funcs   map[string]bool // functions verified in lockstep (their calls may assume "coupled in => coupled out")
 	two     *Term
+	defTwin map[string]*Term // twins of defined constants of float-free sorts (nil: identical in both executions)
 }
 
 func (c *Ctx) containsReal(s Sort) bool {
@@ -76,8 +77,33 @@ func (x *Xlat) twinB(t *Term, bound map[string]int) *Term {
 			return t
 		}
 		s, ok := x.ctx.consts[t.Op]
-		if !ok || !x.ctx.containsReal(s) || strings.HasSuffix(t.Op, twinSuffix) {
+		if !ok || strings.HasSuffix(t.Op, twinSuffix) {
 			return t
+		}
+		if !x.ctx.containsReal(s) {
+			// a defined constant of a float-free sort (a comparison result, an index computed from lengths, ...) still
+			// differs between the two executions when its definition mentions floats: twin the definition
+			d, isDef := x.ctx.defs[t.Op]
+			if !isDef {
+				return t
+			}
+			if r, seen := x.lock.defTwin[t.Op]; seen {
+				if r == nil {
+					return t
+				}
+				return r
+			}
+			x.lock.defTwin[t.Op] = nil // guards against cyclic definitions
+			td := x.twinB(d, map[string]int{})
+			if td == d {
+				return t
+			}
+			tn := t.Op + twinSuffix
+			x.ctx.consts[tn] = s
+			x.ctx.defs[tn] = td
+			r := x.ctx.Named(tn, s)
+			x.lock.defTwin[t.Op] = r
+			return r
 		}
 		return x.twinConst(t.Op, s)
 	}
